@@ -115,6 +115,12 @@ static json run_job(const json& job)
     });
     out["main"] = main;
     out["nerr_main"] = doc->get_errors().size();   // diagnostics of the main parse; later ones belong to exprs/queries
+    if (!job.value("dump", true)) {                // without a dump: the distinct diagnostic keys at least (which error paths the input reached)
+        std::set<std::string> keys;
+        for (auto& e : doc->get_errors()) keys.insert(e.msg.substr(0, e.msg.find(' ')));
+        for (auto& e : doc->get_warnings()) keys.insert(e.msg.substr(0, e.msg.find(' ')));
+        out["msgs"] = keys;
+    }
     if (builder == "pretty") out["pretty"] = pretty_out.str();
     // expression parses in the scope of the (global frame of the) document
     if (job.contains("exprs")) {
